@@ -78,6 +78,7 @@ def build(repo, spec_dir, canary=False):
             None => *final(a) == *old(a) && *final(b) == *old(b),
         }''', ['C01', 'C02', 'C16'])])
     A = lambda name, **kw: b.assumed_fn('expression.rs', name, within=EX, **kw)
+    A('repeat_zero_or_more_times', ensures=['match *expr { Some(e) => r is Some && lang(r->Some_0) == star(lang(e)), None => r is None }'], why='Option::map(closure); `star` is uninterpreted (never reached for an acyclic automaton)')
     A('new_alternation', ensures=NEW_ALTERNATION_ENSURES, why='sort_by_key(closure)')
     A('new_character_class', ensures=['lang(r) == class_lang(first_char_set@.union(second_char_set@))'], why='iterator chain')
     A('is_single_codepoint', ensures=['r ==> lang(*self) == class_lang(charset_spec(*self))'], why='string iteration; meaning of a one-char grapheme')
